@@ -92,10 +92,7 @@ func readerMachine(p *Prog, lines []string) *Machine {
 	installFuncModels(m)
 	installUnicodeModels(m)
 	installIOGlobals(m)
-	m.Hooks["(*bufio.Reader).ReadString"] = func(m *Machine, st *State, call *ssa.CallCommon, args []Val) ([]Val, bool) {
-		if d, ok := args[1].(int64); !ok || d != '\n' {
-			return nil, false
-		}
+	installLineReader(m, func(st *State) (string, bool) {
 		n := 0
 		for _, e := range st.Effects {
 			if e == "read" {
@@ -104,14 +101,10 @@ func readerMachine(p *Prog, lines []string) *Machine {
 		}
 		st.Effects = append(st.Effects, "read")
 		if n >= len(lines) {
-			return []Val{&TupleV{E: []Val{"", eofVal}}}, true
+			return "", false
 		}
-		l := lines[n]
-		if !strings.HasSuffix(l, "\n") {
-			return []Val{&TupleV{E: []Val{l, eofVal}}}, true
-		}
-		return []Val{&TupleV{E: []Val{l, nilV{}}}}, true
-	}
+		return lines[n], true
+	})
 	return m
 }
 
@@ -413,14 +406,24 @@ func checkC07(p *Prog, rp *Report) {
 	}
 	// C07-LONGLINES
 	ll := rp.Rule("C07-LONGLINES", "lines are read without a length limit", 1)
-	okLL := len(callsNamed(next, "(*bufio.Reader).ReadString")) > 0
-	why := "Next does not read with ReadString('\\n')"
-	for _, c := range allCalls(next) {
-		n := calleeName(c.Common())
-		if n == "(*bufio.Reader).ReadLine" || strings.HasPrefix(n, "(*bufio.Scanner)") || n == "(*bufio.Reader).ReadSlice" {
-			okLL = false
-			why = shortFn(n) + " hands out long lines in pieces (or fails on them): a field line longer than the buffer is split"
+	okLL := false
+	why := "Next does not read its lines with ReadString('\\n') / ReadBytes('\\n')"
+	for _, f := range reachableRepoFuncs(next) {
+		for _, c := range allCalls(f) {
+			switch n := calleeName(c.Common()); {
+			case n == "(*bufio.Reader).ReadString" || n == "(*bufio.Reader).ReadBytes":
+				okLL = true
+			}
 		}
 	}
-	ll.check(okLL, "control.ParagraphReader.Next", pos, "ReadString('\\n')", why)
+	for _, f := range reachableRepoFuncs(next) {
+		for _, c := range allCalls(f) {
+			n := calleeName(c.Common())
+			if n == "(*bufio.Reader).ReadLine" || strings.HasPrefix(n, "(*bufio.Scanner)") || n == "(*bufio.Reader).ReadSlice" || n == "bufio.NewScanner" {
+				okLL = false
+				why = shortFn(n) + " hands out long lines in pieces (or fails on them): a field line longer than the buffer is split"
+			}
+		}
+	}
+	ll.check(okLL, "control.ParagraphReader.Next", pos, "lines are read with ReadString / ReadBytes (no length limit)", why)
 }
